@@ -309,3 +309,13 @@ func vs_deletedParamCode(required bool) SpecChangeCode {
 	}
 	return DeletedOptionalParam
 }
+
+// vs_sortedDiffs (C07): the value handed to the JSON encoder is a difference list in the order
+// of the text report (by the printed form of each difference), so that the JSON report does not
+// depend on the order in which map iteration produced the differences.
+func vs_sortedDiffs(v interface{}) bool {
+	ds, ok := v.(SpecDifferences)
+	return ok && vs_all(func(i int) bool {
+		return vs_all(func(j int) bool { return 0 <= i && i < j && j < len(ds) ==> ds[i].String() <= ds[j].String() })
+	})
+}
